@@ -33,9 +33,18 @@ pub fn check(_ctx: &Ctx, st: &mut Stats, c: &Case) {
         st.count("shifted_values_out_of_range(not generated)");
         return;
     }
-    let (Ok(a), Ok(b)) = (call(st, &p, c.site.loc(), date, None), call(st, &p, s2.loc(), date, None)) else {
-        st.count("panicked_cannot_decide(see C07)");
-        return;
+    let (a, b) = match (call(st, &p, c.site.loc(), date, None), call(st, &p, s2.loc(), date, None)) {
+        (Ok(a), Ok(b)) => (a, b),
+        (Err(_), Err(_)) => {
+            st.count("panicked_cannot_decide(see C07)");
+            return;
+        }
+        (ra, rb) => {
+            // one member of the pair reports its times, the other reports nothing at all
+            let pm = ra.as_ref().err().or(rb.as_ref().err()).cloned().unwrap_or_default();
+            st.violate("validity_changes", c, json!({"why": "one member of the pair panicked instead of reporting times, the other did not", "panic": pm, "base_panicked": ra.is_err(), "shifted_panicked": rb.is_err()}));
+            return;
+        }
     };
     st.decided += 1;
     let expected_shift = if c.kind == "gmt" { d * 3600.0 } else { 0.0 };
